@@ -844,6 +844,9 @@ func (g *Gen) famAolAdv() {
 	case 1: // remove a writer, then the former writer appends (same or next block)
 		if len(ws) > 0 {
 			w := ws[r.Intn(len(ws))]
+			if r.Chance(0.5) {
+				g.tx(g.recordSpec(t[0], t[1], w, "")) // the latest record of the topic is this writer's, from this very block
+			}
 			g.tx(M("aol.DeleteWriter", "topic", t[1], "owner", t[0], "writer", w))
 			g.tx(g.recordSpec(t[0], t[1], w, ""))
 			if r.Chance(0.5) {
